@@ -127,3 +127,96 @@ func IdsOf(v any) []string {
 	}
 	return out
 }
+
+// ---- qualifier / primary universe (C08, C10): four provider types of one interface IQ that differ
+// only in the marker interfaces the container tests by type assertion.
+
+type IQ interface{ QID() string }
+
+type QBase struct{ Id, Name string }
+
+func (b *QBase) QID() string    { return b.Id }
+func (b *QBase) Ident() string  { return b.Id }
+func (b *QBase) Naming() string { return b.Name }
+
+type QQual struct{ Q string }
+
+func (q *QQual) Qualifier() string { return q.Q }
+
+type PlainNQ struct{ QBase }
+type PlainQ struct {
+	QBase
+	QQual
+}
+type PrimNQ struct{ QBase }
+
+func (*PrimNQ) Primary() {}
+
+type PrimQ struct {
+	QBase
+	QQual
+}
+
+func (*PrimQ) Primary() {}
+
+// Missing is an interface nobody implements (optional field without candidates).
+type Missing interface{ Nope() }
+
+// QProv describes one provider of the qualifier universe.
+type QProv struct {
+	Prim  bool   `json:"primary,omitempty"`
+	Named bool   `json:"named,omitempty"`
+	Q     string `json:"q"` // "-" = Qualifier() not declared
+}
+
+func (p QProv) String() string {
+	s := "p"
+	if p.Prim {
+		s = "P"
+	}
+	if p.Named {
+		s += "n"
+	} else {
+		s += "d"
+	}
+	return s + "[" + p.Q + "]"
+}
+
+// TypeKey identifies the Go type a QProv is built with (one default name per type).
+func (p QProv) TypeKey() string {
+	switch {
+	case !p.Prim && p.Q == "-":
+		return "PlainNQ"
+	case !p.Prim:
+		return "PlainQ"
+	case p.Q == "-":
+		return "PrimNQ"
+	}
+	return "PrimQ"
+}
+
+// RegName is the name the provider is registered under when it is the i-th of its population.
+func (p QProv) RegName(i int) string {
+	if p.Named {
+		return fmt.Sprintf("x%d", i)
+	}
+	return DefaultName(p.TypeKey())
+}
+
+// BuildQ creates the provider; its identity is "x<i>".
+func BuildQ(p QProv, i int) any {
+	id := fmt.Sprintf("x%d", i)
+	b := QBase{Id: id}
+	if p.Named {
+		b.Name = id
+	}
+	switch p.TypeKey() {
+	case "PlainNQ":
+		return &PlainNQ{b}
+	case "PlainQ":
+		return &PlainQ{b, QQual{p.Q}}
+	case "PrimNQ":
+		return &PrimNQ{b}
+	}
+	return &PrimQ{b, QQual{p.Q}}
+}
